@@ -171,6 +171,7 @@ theorem knownItems_value (fields : List (String × Ty)) (kvs : List (Key × Val)
   refine ⟨kv.1, ?_⟩
   cases hk : kv.1 with
   | int i => simp [hk] at he
+  | other n => simp [hk] at he
   | str s =>
     simp only [hk] at he
     cases hl : fields.lookup s with
